@@ -26,7 +26,11 @@ theorem format_agp_is_source (a : Assembly) :
   rotate_left
   · intro s file
     -- `for i, row in enumerate(scffld.rows)`
-    rw [forIn_rows_model s.name]
+    -- the loop state packs `file` and `p` in the translator's canonical (sorted-by-name) order; the other order is
+    -- tried too, so that the proof does not depend on which it is
+    first
+      | rw [forIn_rows_model (fun p file => (file, p)) s.name]
+      | rw [forIn_rows_model (fun p file => (p, file)) s.name]
     · cases formatAgpRows s.name 0 0 s.rows <;> rfl
     · intro i row p file
       cases row with
